@@ -344,4 +344,7 @@ def run(ctx, rep):
     write_rules(ctx, facts, rep)
     const_rules(facts, rep)
     count_rule(facts, rep, rule="C15-COUNT", only=r"ZipCrypto")
+    from rules.C04 import ae2_rules, table_rules as crc_table_rules
+    ae2_rules(facts, rep)              # reported as C15/C04-AE2SRC: only AE-2 switches the CRC off -- a ZipCrypto entry read under a colliding wrong password must end in a checksum error
+    crc_table_rules(facts, rep)        # reported as C15/C04-TABLE
     rep.assume("the 1/256 false-accept rate of the one-byte check is inherent to the format")
